@@ -1,5 +1,7 @@
 import PyaModel.Spec.FixSpec
 import PyaModel.Generated.FixConsts
+import PyaModel.Generated.FixRoutes
+import PyaModel.Proofs.C16Routes
 /-!
 # Proofs/C16 — helper lemmas for Props/C16
 
@@ -12,6 +14,7 @@ import PyaModel.Generated.FixConsts
 6. The line lexer.
 7. `NodeTransformer.generic_visit`: identity copy, exact replacement.
 8. Removing a statement: the live guard, straight-line def-use.
+9. Fix routes (regenerated registry) and node kinds.
 -/
 set_option linter.unusedSimpArgs false
 set_option linter.unusedVariables false
@@ -1297,5 +1300,42 @@ theorem not_undef_of_env : ∀ (p : List Stmt) (env : List String) (x : String),
     rcases h with h | h
     · simp [hx] at h
     · exact ih (env ++ s.binds) x (by simp [hx]) h
+/-! ## 9. Fix routes and node kinds -/
+
+theorem routes_registered : Gen.fixRoutes = pinnedRoutes := by decide +kernel
+
+theorem routes_kind_ok : Gen.fixRoutes.all routeKindOk = true := by decide +kernel
+
+theorem rootKind_subst (target : Nat) (r : Tree) (t : Tree) :
+    rootKind (substTree target r t) = if t.id == target then rootKind r else rootKind t := by
+  cases t with
+  | mk k i fs =>
+    simp only [substTree, Tree.id]
+    by_cases h : (i == target) = true
+    · simp [h]
+    · simp [h, rootKind]
+
+theorem itemCats_subst (cat : String → String) (target : Nat) (r : Tree) : ∀ items : ItemList,
+    rootsKindOk cat target r items = true → itemCats cat (substItems target r items) = itemCats cat items
+  | .nil => fun _ => rfl
+  | .cons .none rest => by
+    intro h
+    simp only [rootsKindOk] at h
+    simp only [substItems, itemCats, itemCats_subst cat target r rest h]
+  | .cons (.val v) rest => by
+    intro h
+    simp only [rootsKindOk] at h
+    simp only [substItems, itemCats, itemCats_subst cat target r rest h]
+  | .cons (.tree t) rest => by
+    intro h
+    simp only [rootsKindOk, Bool.and_eq_true, Bool.or_eq_true, bne_iff_ne, ne_eq, beq_iff_eq] at h
+    simp only [substItems, itemCats, itemCats_subst cat target r rest h.2, rootKind_subst]
+    congr 1
+    by_cases hi : (t.id == target) = true
+    · simp only [hi, if_true]
+      rcases h.1 with h1 | h1
+      · exact absurd (beq_iff_eq.mp hi) h1
+      · exact h1.symm
+    · simp [hi]
 
 end Pya.C16
